@@ -171,6 +171,13 @@ func (e *Env) StopReaders() {
 
 // Cleanup ends everything still running so that the bubble can exit; nothing is logged any more.
 func (e *Env) Cleanup() {
+	// (cancelling everything is a driver step like any other: a store that keeps running after its contexts
+	// ended never lets the bubble become idle, and the watchdog reports it)
+	StepBusy.Add(1)
+	defer func() {
+		StepBusy.Add(-1)
+		StepsDone.Add(1)
+	}()
 	e.mu.Lock()
 	e.muted = true
 	e.mu.Unlock()
